@@ -106,3 +106,11 @@ Theorem c06_float_rebase_relative_error :
     /\ (Rabs (B2R (change_base (CFfloat prec emax Hprec Hmax lib) Ul Ur d v) - rebase_R prec emax Hprec Hmax lib Ul Ur d v)
         <= (H prec ^ ops prec emax t - 1) * Rabs (rebase_R prec emax Hprec Hmax lib Ul Ur d v))%R.
 Proof. intros prec emax Hprec Hmax lib Ul Ur d v t St. exact (change_base_relerr prec emax Hprec Hmax lib Ul Ur d v St). Qed.
+
+From UomV Require Import Proofs.SafeB Model.Run.
+(* non-vacuity: the Safe premise holds for re-basing 2.5 (km/h stored in the km-g-h base) into the cgs base *)
+Example c06_float_rebase_premise :
+  let ev := eval_f 53 1024 p64 m64 in
+  Safe 53 1024 p64 m64 (change_base_tree 53 1024 p64 m64 LibStd
+     (map ev [ELit 1 (-2); ELit 1 (-3); ELit 1 0]) (map ev [ELit 1 3; ELit 1 (-3); ELit 36 2]) [1; 0; -1]%Z (of_lit 53 1024 p64 m64 25 (-1))).
+Proof. cbv zeta. apply safe64_sound. vm_compute. reflexivity. Qed.
